@@ -574,7 +574,7 @@ func Monitor(spec *Spec, tr *Trace) []Finding {
 		}
 	}
 	// buffered output: every attempt's chunks complete, contiguous, once
-	if (spec.Buffer && tr.Output != "" || (spec.Buffer && tr.OutputWrites > 0)) && !spec.WriterFails {
+	if spec.Buffer && tr.OutputRead && !spec.WriterFails {
 		ms := chunkRe.FindAllStringSubmatch(tr.Output, -1)
 		rest := strings.ReplaceAll(chunkRe.ReplaceAllString(tr.Output, ""), ".", "")
 		if rest != "" {
